@@ -704,6 +704,84 @@ def _case_netobj(case, out):
                     % (net.nspecies(), net.nreactions())))
 
 
+# ---- networks: undeclared species whose label resembles the declared ones -----------------------------
+#
+# "refuses reactions naming undeclared species" is exact label identity: a label that is a prefix, suffix,
+# inner part, concatenation, case variant or one-character neighbour of declared labels is NOT declared.
+
+ADV_ALPHA = ["A", "B", ",", "a"]
+ADV_SETS = [["AB", "C"], ["ABA", "B,", "a"], ["A", "BB", ",AB"], ["AaB", "A,B", "C", "b"]]
+ADV_REAL = [["ATP", "ADP", "Pi"], ["E", "ES", "P"], ["Ca2", "CaM"], ["A1", "A2", "A10"], ["x", "y", "z"]]
+ADV_PUNCT = [",", ".", ";", ":", "_", "*", "/", "(", ")", "[", "]", "'", '"', "|", "=", "?", "!", "#", "&"]
+
+
+def _adv_strings(alpha, maxlen):
+    out, layer = [], [""]
+    for _ in range(maxlen):
+        layer = [w + ch for w in layer for ch in alpha]
+        out.extend(layer)
+    return out
+
+
+def _adv_derived(declared):
+    """Labels built from the declared ones: every substring, pairwise concatenations with '' and ',',
+    one character more / less, case variants, single punctuation characters (label rules respected,
+    digit-only strings left out), in a fixed order without repeats."""
+    c = []
+    for l in declared:
+        c += [l[i:j] for i in range(len(l)) for j in range(i + 1, len(l) + 1)]
+        c += [l + "x", "x" + l, l + l[-1], l[:-1], l[1:], l.swapcase(), l.lower(), l.upper()]
+    c += [a + j + b for a in declared for b in declared for j in ("", ",")]
+    c += [", ".join(declared).replace(" ", ""), ",".join(declared)] + ADV_PUNCT
+    out = []
+    for x in c:
+        if R.label_ok(x) and not x.isdigit() and x not in out and not x.endswith("-") and not x.startswith(">"):
+            out.append(x)
+    return out
+
+
+ADV_FORMS = 4
+
+
+def _adv_equation(declared, x, form):
+    d0, d1 = declared[0], declared[1]
+    left, right = [[(None, x)], [(None, d0)], [(None, d0), (None, x)], [(None, d0)]][form], \
+                  [[(None, d0)], [(None, x)], [(None, d1)], [(None, d1), (2, x)]][form]
+    return R.write(left, right, "single")
+
+
+def _case_netadv(case, out):
+    declared, x, route = list(case["declared"]), case["x"], case["route"]
+    text = _adv_equation(declared, x, case["form"])
+    s_terms, p_terms = R.parse(text)
+    named = [l for c, l in s_terms + p_terms]
+    assert x in named and all(c >= 1 for c, l in s_terms + p_terms), text
+    undeclared = [l for l in named if l not in declared]
+    net, err = None, None
+    sp = [Species(l) for l in declared]          # must work: the labels obey the label rules
+    r = Reaction(text, kf=1)
+    try:
+        if route == "ctor":
+            net = RDNetwork(sp, [r])
+        elif route == "from_dict":
+            net = rdnetwork_from_dict({"species": [{"label": l} for l in declared],
+                                       "reactions": [{"eq": text, "k+": 1}]})
+        else:
+            raise AssertionError(route)
+    except AssertionError:
+        raise
+    except Exception as e:
+        err = e
+    side = "substrate" if any(l == x for c, l in s_terms) else "product"
+    if undeclared and net is not None:
+        rel = "contained-in-declared-labels" if any(x in l for l in declared) or x in ", ".join(declared) else "other"
+        out.append(("%s:RDNetwork:accepted:undeclared-%s:%s:%s" % (PID, side, rel, route),
+                    "species %s, reaction %r: %r is not declared but the network was accepted" % (declared, text, undeclared)))
+    elif not undeclared and net is None:
+        out.append(("%s:RDNetwork:valid-network-rejected:%s" % (PID, route),
+                    "species %s, reaction %r: every species is declared; %s: %s" % (declared, text, type(err).__name__, err)))
+
+
 # ---- E2: operation histories on ONE Reaction object ---------------------------------------------------
 #
 # The statement's "the equilibrium constant is their ratio", "splitting it gives ... the same constants" speak
@@ -958,7 +1036,8 @@ class SeqSpace:
 
 _DISPATCH = {"eq": _case_eq, "kbare": _case_kbare, "kexp": _case_kexp, "kwrong": _case_kwrong,
              "kdict": _case_kdict, "kdictwrong": _case_kdictwrong, "net": _case_net,
-             "hist": _case_hist, "nethist": _case_nethist, "netobj": _case_netobj}
+             "hist": _case_hist, "nethist": _case_nethist, "netobj": _case_netobj,
+             "netadv": _case_netadv}
 
 
 def check_case(case):
@@ -1125,6 +1204,16 @@ def _spaces(tier):
                     build=lambda d: dict({"sub": "netobj", "kind": d["kind"], "form": d["form"], "n": d["n"], "i": 0,
                                           "j": 0, "route": d["route"]},
                                          **({"withreaction": True} if d["kind"] == "species" else {}))))
+    # -- undeclared labels that resemble the declared ones
+    adv_all = _adv_strings(ADV_ALPHA, 3)       # 84
+    sp.append(Space("netadv: 4 declared label sets %s x EVERY string of length 1..3 over %s (84) as the label named by a reaction x 4 positions (substrate, product, second substrate, second product with coefficient 2) x {constructor, rdnetwork_from_dict}: refused iff not exactly a declared label"
+                    % (ADV_SETS, ADV_ALPHA), "netadv",
+                    [("declared", ADV_SETS), ("x", adv_all), ("form", list(range(ADV_FORMS))), ("route", ["ctor", "from_dict"])]))
+    for D in ADV_REAL:
+        sp.append(Space("netadv: declared %s x every label derived from them (substrings, concatenations with ''/',', one character more/less, case variants, 19 punctuation characters: %d) x 4 positions x 2 routes"
+                        % (D, len(_adv_derived(D))), "netadv",
+                        [("x", _adv_derived(D)), ("form", list(range(ADV_FORMS))), ("route", ["ctor", "from_dict"])],
+                        const={"declared": D}))
     # -- histories on one object (E2)
     rx_all = list(range(len(HIST_RX)))
     if thorough:
@@ -1175,7 +1264,11 @@ def _work(job):
         res = check_case(case)
         sub = case["sub"]
         ops = {"eq": 14, "kbare": 9, "kexp": 6, "kwrong": 2, "kdict": 6, "kdictwrong": 1, "net": 4,
-               "hist": 0, "nethist": 0, "netobj": 1}[sub]
+               "hist": 0, "nethist": 0, "netobj": 1, "netadv": 3}[sub]
+        if sub == "netadv":
+            inside = case["x"] not in case["declared"] and case["x"] in ", ".join(case["declared"])
+            acc.count("undeclared_label_textually_inside_declared_ones" if inside else
+                      ("undeclared_label_other" if case["x"] not in case["declared"] else "declared_label_control"))
         if sub == "netobj":
             acc.count("networks_with_duplicate_label_as_" + case["form"].replace("-", "_"))
         if sub in ("hist", "nethist"):
